@@ -69,10 +69,16 @@ WHAT = {
                                  "t[i][0:1] is a 'Time' holding one bare number with the jd of the epoch",
     "c04_insert_gpsws_other_fmt": "TimeArray.insert(a, pos, b) with a in gps_ws and b in another format inserts the converted "
                                   "(week, seconds, day) columns as rows: garbage values, 3 rows per call, or ValueError",
+    "c04_scalar_rebuild_object_formats": "a single epoch in datetime / isot (and iso, yday, date, yydddsssss, decimalyear) format "
+                                         "cannot be rebuilt from its 0-d value: copy/deepcopy/subset(int) of t[i] raise TypeError",
     "c04_delattr_allowed": "__setattr__ is blocked but __delattr__ is not: `del t.fmt` succeeds and breaks the array",
 }
 
-FMT_TAG = {"jd": 0, "mjd": 1, "gps_ws": 2, "days": 3, "seconds": 4}
+FMT_TAG = {"jd": 0, "mjd": 1, "gps_ws": 2, "days": 3, "seconds": 4, "datetime": 5, "isot": 6}
+# configurations whose root has near-coincident distinct epochs (1 / 5 / 10 / 20 microseconds apart) and exact duplicates:
+# "datetime", "isot" and the other formats with a trailing "~"; the derived format read off every object is .datetime
+NEAR_FMTS = ("datetime", "isot", "jd~", "mjd~", "gps_ws~")
+NEAR_OFFSETS_US = (0, 10, 11, 0, 16, 36)
 DELTA_FMTS = ("days", "seconds")
 
 
@@ -81,7 +87,10 @@ class Cfg:
     """One root array: n epochs, format, the two scales of the history."""
 
     def __init__(self, n, fmt):
-        self.n, self.fmt = n, fmt
+        self.n, self.name = n, fmt
+        self.near = fmt in NEAR_FMTS
+        fmt = fmt.rstrip("~")
+        self.fmt = fmt
         self.delta = fmt in DELTA_FMTS          # TimeDelta arrays: same base class, no scale conversions registered
         self.has_conv = not self.delta
         self.inverse_ok = (not self.delta) and fmt != "gps_ws"     # insert of scale-1 objects into scale-0 arrays is modelled
@@ -93,17 +102,24 @@ class Cfg:
             self.der = "seconds" if fmt == "days" else "days"
         else:
             self.scales = ("utc", "tai")
+        if self.near:
+            self.der = "datetime"
 
     def array_cls(self):
         from midgard.data._time import TimeArray, TimeDeltaArray
         return TimeDeltaArray if self.delta else TimeArray
 
     def key(self):
-        return (self.n, self.fmt)
+        return (self.n, self.name)
 
     def root(self):
         from midgard.data.time import Time, TimeDelta
         n = self.n
+        if self.near:
+            from datetime import datetime, timedelta
+            epochs = [datetime(2020, 3, 1, 12, 0, 30) + timedelta(microseconds=NEAR_OFFSETS_US[k]) for k in range(n)]
+            t = Time(epochs, scale=self.scales[0], fmt="datetime")
+            return t if self.fmt == "datetime" else type(t).from_jds(t.jd1, t.jd2, self.fmt)
         if self.fmt == "days":
             return TimeDelta(np.array([1.0 + 3 * k + (k + 1) / 8 for k in range(n)]), scale="utc", fmt="days")
         if self.fmt == "seconds":
@@ -117,6 +133,10 @@ class Cfg:
 
     def how(self):
         n = self.n
+        if self.near:
+            return (f"t = Time([datetime(2020, 3, 1, 12, 0, 30) + timedelta(microseconds=us) for us in "
+                    f"{list(NEAR_OFFSETS_US[:n])}], scale={self.scales[0]!r}, fmt='datetime'); o0 = "
+                    + ("t" if self.fmt == "datetime" else f"type(t).from_jds(t.jd1, t.jd2, {self.fmt!r})"))
         if self.fmt == "days":
             return f"o0 = TimeDelta(np.array([1.0 + 3*k + (k+1)/8 for k in range({n})]), scale='utc', fmt='days')"
         if self.fmt == "seconds":
@@ -176,19 +196,28 @@ def isolation_selftest():
 
 # ----------------------------------------------------------------------------- tokens / observation
 class Tok:
-    """Numbers every distinct double (by bit pattern)."""
+    """Numbers every distinct value: doubles by bit pattern, datetimes and strings by value."""
 
     def __init__(self):
         self.d = {}
         self.vals = []
 
     def __call__(self, x):
-        b = struct.pack("<d", float(x))
+        if isinstance(x, np.ndarray) and x.ndim == 0:
+            x = x.item()
+        if isinstance(x, (float, int, np.floating, np.integer)):
+            b = struct.pack("<d", float(x))
+            shown = float(x)
+        else:
+            if isinstance(x, (np.str_, str)):
+                x = str(x)
+            b = (type(x).__name__, x)
+            shown = str(x)
         t = self.d.get(b)
         if t is None:
             t = len(self.vals) + 1
             self.d[b] = t
-            self.vals.append(float(x))
+            self.vals.append(shown)
         return t
 
 
@@ -208,13 +237,13 @@ def observe(o, cfg, tok, der=True):
         raise OutOfModel(f"fmt {fmt!r}")
     ncols = 3 if fmt == "gps_ws" else 1
     arr = np.asarray(o)
-    if arr.dtype != np.float64:
+    if arr.dtype != np.float64 and not (fmt in ("datetime", "isot") and arr.dtype.kind in "OU"):
         raise OutOfModel(f"dtype {arr.dtype}")
     if ncols == 1:
         if arr.ndim > 1:
             raise OutOfModel(f"shape {arr.shape}")
         scalar = arr.ndim == 0
-        rows = tuple((tok(x),) for x in arr.reshape(-1))
+        rows = tuple((tok(x),) for x in arr.reshape(-1).tolist())
     else:
         if arr.ndim not in (1, 2) or arr.shape[-1] != 3:
             raise OutOfModel(f"shape {arr.shape}")
@@ -1118,6 +1147,12 @@ def plan(ctx):
                 for op in first_ops(cfg):
                     rich_first = op in first_ops_rich_only(cfg)
                     trees.append((n, fmt, op, 2 if rich_first else d, 1))
+        for fmt in NEAR_FMTS:
+            for n in (3, 5):
+                cfg = Cfg(n, fmt)
+                base = [o for o in first_ops(cfg) if o not in first_ops_rich_only(cfg)]
+                for op in base:
+                    trees.append((n, fmt, op, 2, 0))
         n_rnd, ln = 400, 30
     else:
         for fmt in ("jd", "gps_ws", "days"):
@@ -1127,9 +1162,15 @@ def plan(ctx):
                 for op in first_ops(cfg):
                     rich_first = op in first_ops_rich_only(cfg)
                     trees.append((n, fmt, op, 3 if rich_first else d, 1))
+        for fmt in NEAR_FMTS:
+            for n in lengths:
+                cfg = Cfg(n, fmt)
+                for op in first_ops(cfg):
+                    rich_first = op in first_ops_rich_only(cfg)
+                    trees.append((n, fmt, op, 2 if (rich_first or n not in (3, 5)) else 3, 1))
         n_rnd, ln = 4000, 30
     for i in range(n_rnd):
-        rnd.append((ctx.rng.choice(lengths), ctx.rng.choice(["jd", "mjd", "gps_ws", "jd", "gps_ws", "days", "seconds"]),
+        rnd.append((ctx.rng.choice(lengths), ctx.rng.choice(["jd", "mjd", "gps_ws", "jd", "gps_ws", "days", "seconds", "datetime", "isot", "jd~", "gps_ws~", "mjd~"]),
                     ctx.rng.randrange(1 << 60), ctx.rng.choice([ln, ln, 12, 6])))
     return trees, rnd
 
@@ -1175,7 +1216,7 @@ def replay_of(cfg_key, path, verdict, other, changed):
         obs = [show(x) for x in observed[1]]
     else:
         obs = observed
-    return dict(kind="history", config=dict(n=cfg.n, fmt=cfg.fmt, scales=cfg.scales), history=lines,
+    return dict(kind="history", config=dict(n=cfg.n, fmt=cfg.name, scales=cfg.scales), history=lines,
                 ops=[list(map(lambda x: list(x) if isinstance(x, tuple) else x, op)) for op in path],
                 observed_last_step=obs, verdict=verdict, changed_objects=list(changed), outside_model=other,
                 how="from midgard.data.time import Time; from midgard.data._time import TimeArray; import numpy as np, copy; "
@@ -1295,6 +1336,8 @@ def run(ctx):
                     qs = VARIANTS[verdict - 1]
                     for qn in qs:
                         fid = QUIRK_IDS[qn]
+                        if qn == "rebuild" and Cfg(*cfg_key).fmt in ("datetime", "isot"):
+                            fid = "c04_scalar_rebuild_object_formats"
                         ctx.count(f"quirk:{fid}")
                         known = any(k.get("id") == fid and k.get("status", "open") == "open" for k in ctx.known)
                         if known:
